@@ -131,7 +131,8 @@ impl Connection {
 
                 self.buffer.advance(len);
 
-                Ok(None)
+                // Next message could be already buffered
+                self.parse_frame()
             }
             // Not enough data has been buffered
             Err(Error::Incomplete(_)) => Ok(None),
